@@ -231,3 +231,37 @@ def make_estimator(dreye, s, w=None, with_bounds=True):
     est = dreye.ReceptorEstimator(filters, domain=1.0, **kw)
     est.register_system(sources, lb=s["lb"] if with_bounds else None, ub=s["ub"] if with_bounds else None)
     return est
+
+
+def near_boundary_targets(rng, Mt, c0, lbv, ubv, inside_pool, scale, k=3):
+    """Targets just outside / just inside the gamut of ANY configuration (bounded, unbounded, flat): bisect with the LP
+    oracle between an interior capture and an outside point, then step by {1e-3,1e-4,1e-5}*scale along the segment.
+    Returns list of (target, class) with class in {'near-outside', 'near-inside'}."""
+    m = Mt.shape[0]
+    out = []
+    for _ in range(k):
+        b_in = inside_pool[rng.integers(len(inside_pool))]
+        b_out = b_in + rng.normal(0, 1, m) * scale
+        t, _x = oracles.lp_feasible_residual(Mt, c0, lbv, ubv, b_out)
+        if t is None or t <= 1e-3 * scale:
+            continue
+        lo, hi = 0.0, 1.0
+        ok = True
+        for _it in range(34):
+            mid = 0.5 * (lo + hi)
+            tm, _x = oracles.lp_feasible_residual(Mt, c0, lbv, ubv, b_in + mid * (b_out - b_in))
+            if tm is None:
+                ok = False
+                break
+            if tm > 1e-12 * scale:
+                hi = mid
+            else:
+                lo = mid
+        if not ok:
+            continue
+        d = (b_out - b_in) / np.linalg.norm(b_out - b_in)
+        cross = b_in + hi * (b_out - b_in)
+        step = [1e-3, 1e-4, 1e-5][rng.integers(3)] * scale
+        out.append((cross + step * d, "near-outside"))
+        out.append((cross - step * d, "near-inside"))
+    return out
